@@ -272,7 +272,9 @@ func appendTokensForValue(val cty.Value, toks Tokens) Tokens {
 		i := 0
 		for it := val.ElementIterator(); it.Next(); {
 			eKey, eVal := it.Element()
-			if hclsyntax.ValidIdentifier(eKey.AsString()) {
+			// A leading "for" would make the parser read the whole constructor
+			// as a for expression, so that key is always quoted.
+			if k := eKey.AsString(); k != "for" && hclsyntax.ValidIdentifier(k) {
 				toks = append(toks, &Token{
 					Type:  hclsyntax.TokenIdent,
 					Bytes: []byte(eKey.AsString()),
